@@ -542,4 +542,323 @@ theorem roundtrip (i : InputA) : holdsOnA i (modelA i.filename) = true := by
     simp
 
 
+
+/-! ## the rejection clause -/
+
+def allEndings : List String := binaryEndings ++ sourceEndings
+
+/-- no recognised ending is a suffix of another one -/
+theorem endings_apart : ∀ e1 ∈ allEndings, ∀ e2 ∈ allEndings, e1 ≠ e2 → endsWith e1.toList e2.toList = false := by
+  decide +kernel
+
+theorem endsWith_iff (s q : Str) : endsWith s q = true ↔ ∃ a, s = a ++ q := by
+  constructor
+  · intro h; exact ⟨_, endsWith_decomp s q h⟩
+  · rintro ⟨a, rfl⟩; exact endsWith_append_self a q
+
+/-- two suffixes of the same string: the shorter is a suffix of the longer -/
+theorem suffix_of_suffix (s q1 q2 : Str) (h1 : endsWith s q1 = true) (h2 : endsWith s q2 = true)
+    (hl : q2.length ≤ q1.length) : endsWith q1 q2 = true := by
+  obtain ⟨a1, e1⟩ := (endsWith_iff s q1).mp h1
+  obtain ⟨a2, e2⟩ := (endsWith_iff s q2).mp h2
+  rw [endsWith_iff]
+  -- q2 is the last |q2| characters of s, which lie inside q1
+  refine ⟨q1.take (q1.length - q2.length), ?_⟩
+  have hd1 : s.drop (s.length - q2.length) = q2 := by
+    rw [e2, List.drop_append_of_le_length (by simp)]
+    simp
+  have hd2 : s.drop (s.length - q2.length) = q1.drop (q1.length - q2.length) := by
+    rw [e1, List.length_append]
+    have : a1.length + q1.length - q2.length = a1.length + (q1.length - q2.length) := by omega
+    rw [this, List.drop_append]
+    simp
+  have hq2 : q1.drop (q1.length - q2.length) = q2 := by rw [← hd2, hd1]
+  generalize q1.length - q2.length = k at hq2 ⊢
+  rw [← hq2, List.take_append_drop]
+
+
+theorem findSome_unique {α β} (l : List α) (f : α → Option β) (v : β) (x : α) (hx : x ∈ l) (hfx : f x = some v)
+    (hall : ∀ y ∈ l, f y = none ∨ f y = some v) : l.findSome? f = some v := by
+  induction l with
+  | nil => cases hx
+  | cons a as ih =>
+    simp only [List.findSome?_cons]
+    rcases hall a (by simp) with h | h
+    · rw [h]
+      rcases List.mem_cons.mp hx with rfl | hx'
+      · rw [hfx] at h; cases h
+      · exact ih hx' (fun y hy => hall y (by simp [hy]))
+    · rw [h]
+
+/-- the stem of a base name, as the specification reads it -/
+def stemB (b : Str) : Option Str :=
+  allEndings.findSome? fun e => if endsWith b e.toList then some (b.take (b.length - e.length)) else none
+
+theorem stem_eq (fn : Str) : stem fn = stemB (rpartitionChar '/' fn).2.2 := rfl
+
+theorem stem_of (b s : Str) (e : String) (he : e ∈ allEndings) (hb : b = s ++ e.toList) : stemB b = some s := by
+  unfold stemB
+  have hlen : e.length = e.toList.length := String.length_toList.symm
+  apply findSome_unique _ _ s e he
+  · have : endsWith b e.toList = true := by rw [hb]; exact endsWith_append_self s _
+    rw [if_pos this, hb, hlen]
+    simp
+  · intro y hy
+    by_cases hyb : endsWith b y.toList = true
+    · right
+      -- y is the same ending
+      have hbe : endsWith b e.toList = true := by rw [hb]; exact endsWith_append_self s _
+      have hye : y = e := by
+        by_cases hne : y = e
+        · exact hne
+        · exfalso
+          by_cases hl : y.toList.length ≤ e.toList.length
+          · have := suffix_of_suffix b e.toList y.toList hbe hyb hl
+            rw [endings_apart e he y hy (fun h => hne h.symm)] at this; cases this
+          · have := suffix_of_suffix b y.toList e.toList hyb hbe (by omega)
+            rw [endings_apart y hy e he hne] at this; cases this
+      subst hye
+      rw [if_pos hyb, hb, hlen]
+      simp
+    · left
+      simp [hyb]
+
+
+theorem tuples_eq : tupleAt 0 = [".deb", ".udeb", ".dsc"] ∧ tupleAt 1 = ["_changelog", "_copyright"] ∧
+    tupleAt 2 = [".tar.gz", ".tar.xz", ".tar.bz2", ".tar.lzma"] ∧ tupleAt 3 = [".orig", ".debian"] := by decide
+
+theorem splitext_decomp (p : Str) : p = (splitext p).1 ++ (splitext p).2 := by
+  unfold splitext
+  have hs := rpartitionChar_spec '.' p
+  simp only at hs
+  by_cases hc : ((rpartitionChar '.' p).2.1 && !(rpartitionChar '.' p).1.all (· = '.')) = true
+  · simp only [hc, if_true]
+    simp only [Bool.and_eq_true] at hc
+    exact (hs.1 hc.1).1
+  · simp only [hc, if_false]
+    simp
+
+theorem mem_any (b : Str) (L : List String) (h : endsWithAny b L = true) : ∃ q ∈ L, ∃ y, b = y ++ q.toList := by
+  simp only [endsWithAny, List.any_eq_true] at h
+  obtain ⟨q, hq, he⟩ := h
+  exact ⟨q, hq, (endsWith_iff b q.toList).mp he⟩
+
+/-- the recognised base name, when it has an underscore, is the name minus one of the endings of the property -/
+theorem known_decomp (b x : Str) (h : knownBasename b = some x) (hus : '_' ∈ x) :
+    ∃ e ∈ allEndings, b = x ++ e.toList := by
+  obtain ⟨t0, t1, t2, t3⟩ := tuples_eq
+  unfold knownBasename at h
+  by_cases h0 : endsWithAny b (tupleAt 0) = true
+  · -- .deb .udeb .dsc
+    simp only [h0, if_true, Option.some.injEq] at h
+    obtain ⟨q, hq, y, hb⟩ := mem_any b _ h0
+    rw [t0] at hq
+    have key : ∀ w : Str, '.' ∉ w → '_' ∉ w → b = y ++ '.' :: w → x = y := by
+      intro w hw hwu hbw
+      have hr := rpartitionChar_split '.' y w hw
+      rw [← hbw] at hr
+      unfold splitext at h
+      rw [hr] at h
+      simp only [Bool.true_and] at h
+      by_cases hd : y.all (· = '.') = true
+      · -- only dots before the extension: no underscore anywhere
+        exfalso
+        simp only [hd, Bool.not_true, Bool.false_eq_true, if_false] at h
+        rw [← h, hbw] at hus
+        simp only [List.mem_append, List.mem_cons] at hus
+        rcases hus with hm | hm | hm
+        · have := List.all_eq_true.mp hd _ hm; simp at this
+        · cases hm
+        · exact hwu hm
+      · have hd' : y.all (· = '.') = false := by simpa using hd
+        simp only [hd', Bool.not_false, if_true] at h
+        exact h.symm
+    simp only [List.mem_cons, List.not_mem_nil, or_false] at hq
+    rcases hq with rfl | rfl | rfl
+    · have := key "deb".toList (by decide) (by decide) hb
+      exact ⟨".deb", by decide, by rw [this]; exact hb⟩
+    · have := key "udeb".toList (by decide) (by decide) hb
+      exact ⟨".udeb", by decide, by rw [this]; exact hb⟩
+    · have := key "dsc".toList (by decide) (by decide) hb
+      exact ⟨".dsc", by decide, by rw [this]; exact hb⟩
+  · have h0' : endsWithAny b (tupleAt 0) = false := by simpa using h0
+    simp only [h0', Bool.false_eq_true, if_false] at h
+    by_cases h1 : endsWithAny b (tupleAt 1) = true
+    · -- _changelog _copyright
+      simp only [h1, if_true, Option.some.injEq] at h
+      obtain ⟨q, hq, y, hb⟩ := mem_any b _ h1
+      rw [t1] at hq
+      have key : ∀ w : Str, '_' ∉ w → b = y ++ '_' :: w → x = y := by
+        intro w hw hbw
+        have hr := rpartitionChar_split '_' y w hw
+        rw [← hbw] at hr
+        rw [hr] at h
+        exact h.symm
+      simp only [List.mem_cons, List.not_mem_nil, or_false] at hq
+      rcases hq with rfl | rfl
+      · have := key "changelog".toList (by decide) hb
+        exact ⟨"_changelog", by decide, by rw [this]; exact hb⟩
+      · have := key "copyright".toList (by decide) hb
+        exact ⟨"_copyright", by decide, by rw [this]; exact hb⟩
+    · have h1' : endsWithAny b (tupleAt 1) = false := by simpa using h1
+      simp only [h1', Bool.false_eq_true, if_false] at h
+      by_cases h2 : endsWithAny b (tupleAt 2) = true
+      · simp only [h2, if_true] at h
+        obtain ⟨q, hq, y, hb⟩ := mem_any b _ h2
+        rw [t2] at hq
+        -- the last `.tar.` is the one of the ending
+        have key : ∀ z : Str, (∀ k, startsWith ((".tar.".toList ++ z).drop (k + 1)) ".tar.".toList = false) →
+            b = y ++ (".tar.".toList ++ z) →
+            ∃ m ∈ [".orig", ".debian"], y = x ++ m.toList := by
+          intro z hz hbz
+          have hr := rpartitionStr_last ".tar.".toList y z (by decide) hz
+          rw [← hbz] at hr
+          rw [hr] at h
+          simp only at h
+          by_cases h3 : (tupleAt 3).any (fun t => t.toList = (splitext y).2) = true
+          · simp only [h3, if_true, Option.some.injEq] at h
+            rw [t3] at h3
+            simp only [List.any_eq_true, decide_eq_true_eq] at h3
+            obtain ⟨m, hm, hme⟩ := h3
+            refine ⟨m, hm, ?_⟩
+            have := splitext_decomp y
+            rw [h, ← hme] at this
+            exact this
+          · simp only [h3, if_false] at h
+            cases h
+        simp only [List.mem_cons, List.not_mem_nil, or_false] at hq
+        rcases hq with rfl | rfl | rfl | rfl
+        · obtain ⟨m, hm, hy⟩ := key "gz".toList (no_later _ _ (by decide) (by decide)) hb
+          simp only [List.mem_cons, List.not_mem_nil, or_false] at hm
+          rcases hm with rfl | rfl
+          · exact ⟨".orig.tar.gz", by decide, by rw [hb, hy]; simp [List.append_assoc]⟩
+          · exact ⟨".debian.tar.gz", by decide, by rw [hb, hy]; simp [List.append_assoc]⟩
+        · obtain ⟨m, hm, hy⟩ := key "xz".toList (no_later _ _ (by decide) (by decide)) hb
+          simp only [List.mem_cons, List.not_mem_nil, or_false] at hm
+          rcases hm with rfl | rfl
+          · exact ⟨".orig.tar.xz", by decide, by rw [hb, hy]; simp [List.append_assoc]⟩
+          · exact ⟨".debian.tar.xz", by decide, by rw [hb, hy]; simp [List.append_assoc]⟩
+        · obtain ⟨m, hm, hy⟩ := key "bz2".toList (no_later _ _ (by decide) (by decide)) hb
+          simp only [List.mem_cons, List.not_mem_nil, or_false] at hm
+          rcases hm with rfl | rfl
+          · exact ⟨".orig.tar.bz2", by decide, by rw [hb, hy]; simp [List.append_assoc]⟩
+          · exact ⟨".debian.tar.bz2", by decide, by rw [hb, hy]; simp [List.append_assoc]⟩
+        · obtain ⟨m, hm, hy⟩ := key "lzma".toList (no_later _ _ (by decide) (by decide)) hb
+          simp only [List.mem_cons, List.not_mem_nil, or_false] at hm
+          rcases hm with rfl | rfl
+          · exact ⟨".orig.tar.lzma", by decide, by rw [hb, hy]; simp [List.append_assoc]⟩
+          · exact ⟨".debian.tar.lzma", by decide, by rw [hb, hy]; simp [List.append_assoc]⟩
+      · have h2' : endsWithAny b (tupleAt 2) = false := by simpa using h2
+        simp only [h2', Bool.false_eq_true, if_false] at h
+        cases h
+
+
+theorem sep_mem_of_two (sep : Char) (s : Str) (a b : Str) (rest : List Str) (h : splitChar sep s = a :: b :: rest) : sep ∈ s := by
+  cases hm : s.contains sep with
+  | true => exact List.contains_iff_mem.mp hm
+  | false =>
+    have : sep ∉ s := fun hmem => by
+      have := List.contains_iff_mem.mpr hmem; rw [hm] at this; cases this
+    rw [splitChar_not_mem sep s this] at h
+    cases h
+
+theorem getNva_error (b : Str) (e : PyExc) (h : getNva b = .error e) : e = .valueError := by
+  unfold getNva at h
+  cases hk : knownBasename b with
+  | none => rw [hk] at h; cases h; rfl
+  | some x =>
+    rw [hk] at h
+    simp only at h
+    cases hs : splitChar '_' x with
+    | nil => rw [hs] at h; cases h; rfl
+    | cons n r1 =>
+      cases r1 with
+      | nil => rw [hs] at h; cases h; rfl
+      | cons evr r2 =>
+        cases r2 with
+        | nil =>
+          rw [hs] at h
+          simp only at h
+          cases hf : fromString evr with
+          | error ex => rw [hf] at h; injection h with h'; rw [← h']; exact fromString_error evr ex hf
+          | ok v => rw [hf] at h; cases h
+        | cons arch r3 =>
+          cases r3 with
+          | nil =>
+            rw [hs] at h
+            simp only at h
+            cases hf : fromString evr with
+            | error ex => rw [hf] at h; injection h with h'; rw [← h']; exact fromString_error evr ex hf
+            | ok v => rw [hf] at h; cases h
+          | cons _ _ => rw [hs] at h; cases h; rfl
+
+/-- an accepted file name is not one the property says must be rejected -/
+theorem getNva_ok_not_rejected (fn : Str) (n : Str) (v : Ver) (a : Option Str)
+    (h : getNva (basename fn) = .ok (n, v, a)) : mustReject fn = false := by
+  have hb : basename fn = (rpartitionChar '/' fn).2.2 := rfl
+  unfold getNva at h
+  cases hk : knownBasename (basename fn) with
+  | none => rw [hk] at h; cases h
+  | some x =>
+    rw [hk] at h
+    simp only at h
+    -- two or three underscore-separated parts, the second a version
+    have key : ∀ (evr : Str) (hparts : ∃ n0 rest, splitChar '_' x = n0 :: evr :: rest ∧ rest.length ≤ 1)
+        (hv : ∃ w, fromString evr = .ok w), mustReject fn = false := by
+      intro evr hparts hv
+      obtain ⟨n0, rest, hsp, hlen⟩ := hparts
+      obtain ⟨w, hw⟩ := hv
+      have hus : '_' ∈ x := sep_mem_of_two '_' x n0 evr rest hsp
+      obtain ⟨e, he, hbe⟩ := known_decomp (basename fn) x hk hus
+      have hstem : stem fn = some x := by rw [stem_eq, ← hb]; exact stem_of _ x e he hbe
+      have hvalid := (fromString_ok evr w hw).1
+      unfold mustReject
+      rw [hstem]
+      simp only [hsp]
+      cases rest with
+      | nil => simp [hvalid]
+      | cons a1 r =>
+        cases r with
+        | nil => simp [hvalid]
+        | cons _ _ => simp at hlen
+    cases hs : splitChar '_' x with
+    | nil => rw [hs] at h; cases h
+    | cons n0 r1 =>
+      cases r1 with
+      | nil => rw [hs] at h; cases h
+      | cons evr r2 =>
+        cases r2 with
+        | nil =>
+          rw [hs] at h
+          simp only at h
+          cases hf : fromString evr with
+          | error x => rw [hf] at h; cases h
+          | ok w => exact key evr ⟨n0, [], hs, by simp⟩ ⟨w, hf⟩
+        | cons arch r3 =>
+          cases r3 with
+          | nil =>
+            rw [hs] at h
+            simp only at h
+            cases hf : fromString evr with
+            | error x => rw [hf] at h; cases h
+            | ok w => exact key evr ⟨n0, [arch], hs, by simp⟩ ⟨w, hf⟩
+          | cons _ _ => rw [hs] at h; cases h
+
+/-- **C17, the rejection clause**: a file name with no recognised extension or suffix, with a stem that is not two or
+three underscore-separated parts, or with a version part that is not a valid version, is rejected with ValueError -/
+theorem soundB (fn : Str) : holdsOnB fn (modelA fn) = true := by
+  unfold holdsOnB
+  cases hm : mustReject fn with
+  | false => rfl
+  | true =>
+    simp only [Bool.not_true, Bool.false_or, decide_eq_true_eq]
+    unfold modelA debFromFilename
+    cases hg : getNva (basename fn) with
+    | error e => rw [getNva_error _ e hg]; rfl
+    | ok r =>
+      obtain ⟨n, v, a⟩ := r
+      have := getNva_ok_not_rejected fn n v a hg
+      rw [hm] at this; cases this
+
+
 end Props.C17
